@@ -106,7 +106,12 @@ pub(crate) trait FixedChannelRegion: ChannelRegion {
 impl<F: FixedChannelRegion> RegionHandler for FixedChannelPlan<F> {
     fn process_join_accept(&mut self, c_f_list: Option<&CfList>) {
         if let Some(CfList::FixedChannel(channel_mask)) = c_f_list {
-            self.channel_mask_set(channel_mask.clone());
+            // Apply the mask only if the device can still transmit with it at the default
+            // data rate (the rule LinkADRReq masks are validated with); an unusable mask,
+            // e.g. all zeroes, is ignored.
+            if self.channel_mask_validate(channel_mask, Some(self.get_default_datarate())) {
+                self.channel_mask_set(channel_mask.clone());
+            }
         }
     }
 
@@ -224,6 +229,18 @@ impl<F: FixedChannelRegion> RegionHandler for FixedChannelPlan<F> {
                     // from. If the datarate bandwidth is 500 kHz, we must use
                     // channels 64..=71. Else, we must use 0-63
                     let bandwidth = F::datarates()[datarate as usize].as_ref().unwrap().bandwidth;
+                    // The mask may enable no channel of the bandwidth this data rate needs
+                    // (e.g. ADR back-off from a 500 kHz to a 125 kHz rate while only 500 kHz
+                    // channels are enabled). Sampling would then never end, so restore the
+                    // default mask (all channels) first.
+                    let candidates = if bandwidth == Bandwidth::_500KHz {
+                        64..72
+                    } else {
+                        0..64
+                    };
+                    if !candidates.clone().any(|c| self.channel_mask.is_enabled(c).unwrap()) {
+                        self.channel_mask = Default::default();
+                    }
                     if bandwidth == Bandwidth::_500KHz {
                         let mut channel = (rng.next_u32() & 0b111) as u8;
                         // keep selecting a random channel until we find one that is enabled
